@@ -158,6 +158,14 @@ def orig_order_dense(Gx, maps):
     full = np.zeros(dims, dtype=od.dtype)
     sl = [[k for k in order[s] if maps[s][k] in Gx.indices[s].chargemap]
           for s in range(len(dims))]
+    for s in range(len(dims)):
+        # each leg's table must be the documented charge map of its basis:
+        # size of charge c == number of basis states labelled c
+        cm = dict(Gx.indices[s].chargemap)
+        want = {c: sum(1 for v in maps[s] if v == c) for c in cm}
+        require(cm == want and set(cm) <= set(maps[s]), "charge-map",
+                lambda: f"leg {s}: index table {cm} but the basis is "
+                        f"labelled {list(maps[s])}")
     if od.size:
         full[np.ix_(*sl)] = od
     return full
